@@ -45,7 +45,10 @@ def exportHandler : Handler
                 !(doc.startsWith ("{\"type\":\"record\",\"name\":" ++ Avro.jsonStr t.name)) || valueFields doc != some (Exports.avroFields t)) with
             | some (t, doc) => throw s!"document of table {t.name} does not have exactly one correctly typed field per column: {(valueFields doc).getD doc}"
             | none => pure ()
-        (judge "C14" region r14).and (judge "C15" (Scope.c15 g db ss) r15)
+        -- inside the executable scope of `proved_avro` (Proofs/ScopeB.lean) nothing is excused
+        let pA := Scope.Proved.avro g ss
+        ((if pA then { items := ["proved[C15]"] } else okV : Verdict)).and <|
+        (judge "C14" region r14).and (judge "C15" (if pA then none else Scope.c15 g db ss) r15)
     some (corr.and props)
   | _ => none
 
